@@ -14,7 +14,7 @@ import ast
 from sa.model import AnalysisError
 from sa.ctx import Ctx
 from sa.cfg import NORMAL, describe_path
-from sa.report import Report
+from sa.report import Report, section
 from sa import pat
 from sa.util import node_has_call, fact_in, fact_in
 from rules.C12 import C12
@@ -111,7 +111,7 @@ def run(ctx: Ctx, rep: Report, tier: str):
                   "a result of normalize_path is built from %s instead of the collapsed value `%s`: the display form and the comparison form of one path differ in more than case" % (sorted(used - {coll[0]}) or "nothing", coll[0]))
     from rules.common import subpath_lengths_are_normalised
     rep.rule("C13.Z8", "is_subpath positions its boundary test and cuts the relative part with lengths of separator-normalised values, never of a raw argument", 2)
-    subpath_lengths_are_normalised(ctx, rep, "C13.Z8")
+    section(rep, lambda: subpath_lengths_are_normalised(ctx, rep, "C13.Z8"))
     rep.rule("C13.Z9", "join decides whether to prefix the separator from the joined value alone (first character, drive-letter colon at index 1): the decision never "
              "looks at an individual input component, so join(a, b, c) and join(join(a, b), c) agree and a drive-rooted folder stays a prefix of what is joined under it", 1)
     jf = ctx.prog.func("Provider.join")
@@ -182,7 +182,7 @@ def run(ctx: Ctx, rep: Report, tier: str):
         rep.rules.pop(k, None)
         rep.expect.pop(k, None)
     c = C13(ctx, rep)
-    c.z3()
-    c.z4()
-    c.z5()
+    section(rep, c.z3)
+    section(rep, c.z4)
+    section(rep, c.z5)
     rep.assume("the value-level laws of C13 (idempotence, split/join round trip, replace/match laws for all strings) are not decided by this check")
